@@ -224,7 +224,7 @@ def key_chain(ctx, res):
     res.floor(5)
 
 
-@rule("C12.pop-then-notify", ["C12"],
+@rule("C12.pop-then-notify", ["C12", "C19"],
       "the dependency handler removes the cached value before announcing the "
       "property change and reports the removed value as old")
 def pop_then_notify(ctx, res):
